@@ -1580,6 +1580,16 @@ Proof.
   - intros b _ _. split; simpl; auto.
 Qed.
 
+Lemma load_inv_gen : forall d (t : bytes) (j : json),
+  ('(j, _) <- parse_next d t (length t) 0 ;; Ok j) = Ok j -> pinv d j.
+Proof.
+  intros d t j Hl. apply bind_ok in Hl. destruct Hl as ([j' o] & Hp & Hj). inversion Hj; subst j'.
+  eapply parse_next_inv; eauto.
+Qed.
+
+Lemma load_inv : forall (t : bytes) (j : json), load t = Ok j -> pinv max_depth j.
+Proof. intros t j H. exact (load_inv_gen max_depth t j H). Qed.
+
 (* from_json(to_json(from_json(t))) = from_json(t) for every accepted text without doubles *)
 Theorem idempotent_thm : forall (t : bytes) (j : json),
   load t = Ok j -> float_free j = true ->
@@ -1587,8 +1597,7 @@ Theorem idempotent_thm : forall (t : bytes) (j : json),
   from_json (to_json (from_json_obj j)) = FValue (from_json_obj j).
 Proof.
   intros t j Hl Hff. split. { unfold from_json. rewrite Hl. reflexivity. }
-  unfold load in Hl. apply bind_ok in Hl. destruct Hl as ([j' o] & Hp & Hj). inversion Hj; subst j'.
-  destruct (parse_next_inv _ _ _ _ _ _ Hp) as [Hh Hio].
+  destruct (load_inv t j Hl) as [Hh Hio].
   destruct (unwrap_all j Hff Hio) as [Hwf Hvh].
-  apply roundtrip_thm; auto. lia.
+  apply roundtrip_thm; auto. eapply Nat.le_trans; eauto.
 Qed.
